@@ -2,9 +2,9 @@
    No input whatsoever changes the storage of a read-only variable; the automatic READ response
    does not depend on the contents of a write-only variable (it is reported as zero / empty);
    READ is refused with ERROR when the command offers nothing readable and has no read handler,
-   WRITE likewise.  Proofs are in Lemmas_C08.v. *)
+   WRITE likewise.  Proofs are in Lemmas_C08.v (parts 1-3) and Lemmas_C08b.v (part 4). *)
 From Coq Require Import List NArith ZArith Bool Arith.
-From CatV Require Import Bytes Defs Codec Spec Fsm Script CollectDefs Lemmas_C08.
+From CatV Require Import Bytes Defs Codec Spec Fsm Script CollectDefs Lemmas_C08 Lemmas_C08b.
 Import ListNotations.
 Local Open Scope nat_scope.
 
@@ -129,7 +129,7 @@ Definition ex_run (line : list N) : sworld :=
   srun ex_D (sinit ex_D ex_m (mkSio [] [] []) (mkSmu [] []) [])
        (SFeed line :: repeat (SOp OService) 200).
 
-(* slots 0 is a read-only slot of ex_D, slot 1 is not *)
+(* slot 0 is a read-only slot of ex_D *)
 Example ex_ro_slot0 : ro_slot ex_D 0.
 Proof.
   intros c v Hc Hv Hs. cbn in Hc.
@@ -176,4 +176,161 @@ Example ex_text_wo :
   var_text (mkVar None VBufHex 3 WO false false 0) [1; 2; 3] = Some [48; 48; 48; 48; 48; 48] /\
   var_text (mkVar None VBufStr 4 WO false false 0) [65; 66; 0; 0] = Some [34; 34] /\
   var_text (mkVar None VBufStr 4 RW false false 0) [65; 66; 0; 0] = Some [34; 65; 66; 34].
+Proof. vm_compute. repeat split; reflexivity. Qed.
+
+(* ---------------- Part 4: write-only non-interference over every history ---------------- *)
+Local Open Scope nat_scope.
+
+(* slot sl holds only write-only variables *)
+Definition wo_slot (D : desc) (sl : nat) : Prop :=
+  forall c v, In c (pool D) -> In v (c_vars c) -> v_slot v = sl -> v_access v = WO.
+
+(* two memories of the same shape that agree on every slot that is not write-only *)
+Definition memrel (D : desc) (m1 m2 : list (list N)) : Prop :=
+  Forall2 (fun a b : list N => length a = length b) m1 m2 /\
+  forall sl, ~ wo_slot D sl -> nth_error m1 sl = nth_error m2 sl.
+
+(* the bytes handed to a variable's write callback removed from a request / an event *)
+Definition blank_req (q : hreq) : hreq :=
+  match q with VWrite ci vi ws _ => VWrite ci vi ws [] | _ => q end.
+Definition blank_ev (e : event) : event :=
+  match e with ECall q code => ECall (blank_req q) code | _ => e end.
+
+(* the finer relation between the two traces: equal events, except that the write callback of a
+   variable living in a write-only slot may have been handed different bytes (same count) *)
+Definition req_rel (D : desc) (q1 q2 : hreq) : Prop :=
+  q1 = q2 \/
+  exists ci vi ws d1 d2 c v,
+    q1 = VWrite ci vi ws d1 /\ q2 = VWrite ci vi ws d2 /\
+    cmd_at D ci = Some c /\ nth_error (c_vars c) vi = Some v /\ wo_slot D (v_slot v) /\
+    length d1 = length d2.
+Definition ev_rel (D : desc) (e1 e2 : event) : Prop :=
+  e1 = e2 \/ exists q1 q2 code, e1 = ECall q1 code /\ e2 = ECall q2 code /\ req_rel D q1 q2.
+
+(* the io_write events of a trace *)
+Definition wr_events (t : list event) : list event :=
+  filter (fun e => match e with EWr _ _ _ => true | _ => false end) t.
+
+Section C08b.
+Variable D : desc.
+Variables ioS muS hS : Type.
+Variable io_read : ioS -> ioS * option N.
+Variable io_write : ioS -> N -> ioS * bool.
+Variable mu_lock : muS -> muS * bool.
+Variable mu_unlock : muS -> muS * bool.
+Variable h_call : hS -> hreq -> hS * hres.
+
+Local Notation st := (Fsm.st ioS muS hS).
+Local Notation io := (Fsm.io ioS muS hS).
+Local Notation mu := (Fsm.mu ioS muS hS).
+Local Notation hs := (Fsm.hs ioS muS hS).
+Local Notation tr := (Fsm.tr ioS muS hS).
+Local Notation mkWorld := (Fsm.mkWorld ioS muS hS).
+Local Notation run := (Fsm.run D ioS muS hS io_read io_write mu_lock mu_unlock h_call).
+
+(* The statement "the two runs produce the same trace" is FALSE as it stands: the model hands the
+   whole storage of the variable to its write callback (VWrite .. stored) and logs the request, and
+   bytes of the storage that the write did not touch differ between the two runs (example
+   ex_trace_differs below); a callback that reacts to those bytes makes the runs diverge.  The
+   application reading its own variable is not the library's doing, so the theorem assumes that the
+   write callback of a variable living in a write-only slot does not depend on those bytes: *)
+Hypothesis wo_callbacks_blind : forall x ci vi ws d1 d2 c v,
+  cmd_at D ci = Some c -> nth_error (c_vars c) vi = Some v -> wo_slot D (v_slot v) ->
+  length d1 = length d2 ->
+  h_call x (VWrite ci vi ws d1) = h_call x (VWrite ci vi ws d2).
+
+(* 8. for ANY input, oracles, handlers and API calls: the two runs produce the same trace up to
+      those payloads (same reads, same bytes written, same lock events, same callbacks with the same
+      return codes, same inner calls, same return status of every API call), the same oracle
+      states, the same final state except mem, and memories that are again related *)
+Theorem C08_writeonly_noninterference : forall m1 m2 x mx h ops, memrel D m1 m2 ->
+  let w1 := run (mkWorld (init_state D m1) x mx h []) ops in
+  let w2 := run (mkWorld (init_state D m2) x mx h []) ops in
+  map blank_ev (tr w1) = map blank_ev (tr w2) /\
+  io w1 = io w2 /\ mu w1 = mu w2 /\ hs w1 = hs w2 /\
+  set_mem [] (st w1) = set_mem [] (st w2) /\
+  memrel D (mem (st w1)) (mem (st w2)).
+Proof.
+  exact (Lemmas_C08b.C08_writeonly_noninterference D ioS muS hS io_read io_write mu_lock mu_unlock
+           h_call wo_callbacks_blind).
+Qed.
+
+(* 9. the finer form: event by event *)
+Theorem C08_writeonly_noninterference_strong : forall m1 m2 x mx h ops, memrel D m1 m2 ->
+  let w1 := run (mkWorld (init_state D m1) x mx h []) ops in
+  let w2 := run (mkWorld (init_state D m2) x mx h []) ops in
+  Forall2 (ev_rel D) (tr w1) (tr w2) /\
+  io w1 = io w2 /\ mu w1 = mu w2 /\ hs w1 = hs w2 /\
+  set_mem [] (st w1) = set_mem [] (st w2) /\
+  memrel D (mem (st w1)) (mem (st w2)).
+Proof.
+  exact (Lemmas_C08b.C08_writeonly_noninterference_strong D ioS muS hS io_read io_write mu_lock
+           mu_unlock h_call wo_callbacks_blind).
+Qed.
+
+(* 10. in particular the output: the same bytes are offered to io_write, with the same outcomes,
+       in the same order *)
+Theorem C08_writeonly_same_output : forall m1 m2 x mx h ops, memrel D m1 m2 ->
+  wr_events (tr (run (mkWorld (init_state D m1) x mx h []) ops)) =
+  wr_events (tr (run (mkWorld (init_state D m2) x mx h []) ops)).
+Proof.
+  exact (Lemmas_C08b.C08_writeonly_same_output D ioS muS hS io_read io_write mu_lock mu_unlock
+           h_call wo_callbacks_blind).
+Qed.
+End C08b.
+Print Assumptions C08_writeonly_noninterference.
+Print Assumptions C08_writeonly_noninterference_strong.
+Print Assumptions C08_writeonly_same_output.
+
+(* 11. the decoders: status, write size and consumed count do not depend on the old storage *)
+Theorem C08_decode_independent : forall v l d1 d2, length d1 = length d2 ->
+  let '(p1, a1, w1, n1) := decode_var v l d1 in
+  let '(p2, a2, w2, n2) := decode_var v l d2 in
+  p1 = p2 /\ w1 = w2 /\ n1 = n2 /\ length a1 = length a2.
+Proof. exact Lemmas_C08b.decode_var_rel. Qed.
+Print Assumptions C08_decode_independent.
+
+(* ---- non-vacuity for part 4 ---- *)
+Local Open Scope N_scope.
+
+(* slot 1 of ex_D is a write-only slot, so memories differing only there are related *)
+Example ex_wo_slot1 : wo_slot ex_D 1.
+Proof.
+  intros c v Hc Hv Hs. cbn in Hc.
+  destruct Hc as [Hc|[Hc|[Hc|[]]]]; subst c; cbn in Hv;
+    repeat (destruct Hv as [Hv|Hv]; [subst v; try reflexivity; discriminate Hs|]); destruct Hv.
+Qed.
+Example ex_memrel : memrel ex_D [[7]; [8]; [9]] [[7]; [200]; [9]].
+Proof.
+  split.
+  - repeat constructor.
+  - intros sl Hs. destruct sl as [|[|sl]]; [reflexivity | | reflexivity].
+    exfalso. apply Hs. exact ex_wo_slot1.
+Qed.
+
+(* "AT+X?" LF with 8 and with 200 in the write-only variable: the same output  +X=7,0,9 / OK *)
+Example ex_same_output :
+  ex_out (srun ex_D (sinit ex_D [[7]; [200]; [9]] (mkSio [] [] []) (mkSmu [] []) [])
+               (SFeed [65;84;43;88;63;10] :: repeat (SOp OService) 200)) =
+  ex_out (ex_run [65;84;43;88;63;10]).
+Proof. vm_compute. reflexivity. Qed.
+
+(* why exact equality of traces fails: +P is a write-only 2-byte hex buffer with a write callback;
+   "AT+P=AA" LF stores one byte; the callback is handed the whole storage [170; 2] resp. [170; 3] *)
+Definition ex_vP := mkVar None VBufHex 2 WO false true 0.
+Definition ex_cP := mkCmd [43; 80] None false false false false [ex_vP] false false false.
+Definition ex_D2 := mkDesc [[ex_cP]] [] 64 (Some 32%nat) 0 4 false.
+Definition ex_run2 (m : list (list N)) (line : list N) : sworld :=
+  srun ex_D2 (sinit ex_D2 m (mkSio [] [] []) (mkSmu [] []) [])
+       (SFeed line :: repeat (SOp OService) 200).
+Definition ex_calls (w : sworld) : list event :=
+  filter (fun e => match e with ECall _ _ => true | _ => false end) (tr _ _ _ w).
+
+Example ex_trace_differs :
+  ex_calls (ex_run2 [[1; 2]] [65;84;43;80;61;65;65;10]) = [ECall (VWrite 0 0 1 [170; 2]) 0%Z] /\
+  ex_calls (ex_run2 [[1; 3]] [65;84;43;80;61;65;65;10]) = [ECall (VWrite 0 0 1 [170; 3]) 0%Z] /\
+  map blank_ev (tr _ _ _ (ex_run2 [[1; 2]] [65;84;43;80;61;65;65;10])) =
+  map blank_ev (tr _ _ _ (ex_run2 [[1; 3]] [65;84;43;80;61;65;65;10])) /\
+  mem (st _ _ _ (ex_run2 [[1; 2]] [65;84;43;80;61;65;65;10])) = [[170; 2]] /\
+  mem (st _ _ _ (ex_run2 [[1; 3]] [65;84;43;80;61;65;65;10])) = [[170; 3]].
 Proof. vm_compute. repeat split; reflexivity. Qed.
